@@ -9,7 +9,7 @@ R-C16-4  range checks: plain values rejected outside [0, mod) on pack, secret va
 import ast
 
 from ..cfg import CFG, calls_in, own_stmt_part
-from ..loader import norm, AnalysisError, parents
+from ..loader import norm, AnalysisError, parents, precedes as _precedes
 from ..poly import P, poly_of
 from ..relations import relations_when_false, show
 from .c03 import rule_width
@@ -43,14 +43,65 @@ def rule_decomposition(repo, rule):
         rule.ok(tb.loc(c), tb.fq, "bit %s hint: %s" % (ix, arg))
     else:
         rule.violation(tb.loc(c), tb.fq, "bit hint: %s" % arg, "bit i is not hinted with bit i of the value", "to_bits/hint")
+    # values outside 0 <= v < 2^n are rejected: on every honest path (errors not ignored) the checks that dominate the bit
+    # construction imply the bound (interval reasoning of sa/hints.py over the dominating comparisons)
+    from ..hints import Valuer, paths_to, pre_assume, replay, Refuted, Undecidable, NeedCase, Contradiction
+    from ..poly import P as _P
+    verdict = []
+    for path in paths_to(tb.node, c):
+        if any(norm(t) == "ignore_errors()" and pol for t, pol in path.conds):
+            continue
+        from ..hints import all_cases
+
+        def assumptions(path=path):
+            v = Valuer({p_: _P.sym("self" if p_ == s_ else p_) for p_ in tb.params})
+            v.assume(ast.parse("ignore_errors()", mode="eval").body, False)
+            pre_assume(v, path)
+            return v
+
+        def build(v, path=path):
+            replay(v, path)
+            lb = v.bits_idiom(c)
+            if lb is None:
+                raise Undecidable("bit construction not recognised")
+            return _P()
+        for _desc, res, _v in all_cases(build, assumptions):
+            if isinstance(res, str):
+                verdict.append("no: " + res[len("refuted: "):] if res.startswith("refuted") else "unknown")
+            else:
+                verdict.append("yes")
+    bad_ = [x for x in verdict if x.startswith("no")]
+    if bad_:
+        rule.violation(tb.loc(c), tb.fq, norm(c)[:100], "a value outside 0 <= v < 2^n reaches the bit decomposition when errors are "
+                       "not ignored: " + bad_[0][4:], "to_bits/range")
+    elif verdict and all(x == "yes" for x in verdict):
+        rule.ok(tb.loc(c), tb.fq, "the dominating run-time test implies 0 <= value < 2^n on %d path(s)" % len(verdict))
+    else:
+        rule.undecided(tb.loc(c), tb.fq, norm(c)[:100], "range of the decomposed value not derivable from the dominating tests")
     # recomposition equality on every path to return
     target = None
+    bitsvar = norm(built[0]._parent.targets[0]) if isinstance(getattr(built[0], "_parent", None), ast.Assign) else None
+    from ..flatten import resolve_locals as _rl16
+
+    def zero_asserted(n):
+        """the expression a call forces to zero, or None:  D.assert_zero()  |  add_constraint(0, x, D) / add_constraint(x, 0, D)
+        |  a.assert_eq(b)  (D = a - b)"""
+        if isinstance(n.func, ast.Attribute) and n.func.attr == "assert_zero":
+            return n.func.value
+        if isinstance(n.func, ast.Attribute) and n.func.attr == "assert_eq" and len(n.args) >= 1:
+            return ast.BinOp(left=n.func.value, op=ast.Sub(), right=n.args[0])
+        if norm(n.func).split(".")[-1] == "add_constraint" and len(n.args) >= 3 and not norm(n.func).startswith("backend.") and any(
+                norm(a) in ("LinComb.ZERO", "0", "runtime.LinComb.ZERO") for a in n.args[:2]):
+            return n.args[2]
+        return None
     for n in ast.walk(tb.node):
-        if isinstance(n, ast.Call) and isinstance(n.func, ast.Attribute) and n.func.attr == "assert_zero":
-            e = n.func.value
+        if isinstance(n, ast.Call):
+            e = zero_asserted(n)
+            if e is None:
+                continue
+            e = _rl16(tb.node, e, copies_only=True)
             if isinstance(e, ast.BinOp) and isinstance(e.op, ast.Sub):
                 sides = {norm(e.left), norm(e.right)}
-                bitsvar = norm(built[0]._parent.targets[0]) if isinstance(getattr(built[0], "_parent", None), ast.Assign) else None
                 if s_ in sides and any(x.endswith("from_bits(%s)" % bitsvar) for x in sides):
                     target = n
     if target is None:
@@ -99,6 +150,46 @@ def ret_exprs(fi):
     from ..flatten import resolve_locals
     return [resolve_locals(fi.node, n.value) for n in ast.walk(fi.node) if isinstance(n, ast.Return) and n.value is not None and not any(
         isinstance(p, (ast.FunctionDef, ast.Lambda)) and p is not fi.node for p in parents(n))]
+
+
+def prefix_sum_generator(m, name):
+    """True when module function `name(seq, start[=0])` yields, for the elements x of seq in order, the running offsets
+    start, start + x0.bitlen(), start + x0.bitlen() + x1.bitlen(), ...   (for x in seq: yield start; start += x.bitlen())"""
+    f = m.functions.get(name)
+    if f is None or not isinstance(f.node, ast.FunctionDef) or len(f.params) != 2:
+        return False
+    seqp, startp = f.params
+    body = [s for s in f.node.body if not (isinstance(s, ast.Expr) and isinstance(s.value, ast.Constant))]
+    if len(body) != 1 or not isinstance(body[0], ast.For) or norm(body[0].iter) != seqp or not isinstance(body[0].target, ast.Name) \
+            or body[0].orelse or len(body[0].body) != 2:
+        return False
+    x = body[0].target.id
+    y, adv = body[0].body
+    return isinstance(y, ast.Expr) and isinstance(y.value, ast.Yield) and y.value.value is not None and norm(y.value.value) == startp \
+        and isinstance(adv, ast.AugAssign) and isinstance(adv.op, ast.Add) and norm(adv.target) == startp and norm(adv.value) == "%s.bitlen()" % x
+
+
+def zipped_layout(m, fi, comp, bitsp):
+    """(sequence text, start text) for  [c.unpack(bits, st) for c, st in zip(S, G(S, start))]  with G a prefix-sum generator:
+    element k of S is unpacked at start + the bit lengths of the elements before it"""
+    from ..flatten import resolve_locals as _rlz
+    if not (isinstance(comp, ast.ListComp) and len(comp.generators) == 1 and not comp.generators[0].ifs):
+        return None
+    g = comp.generators[0]
+    if not (isinstance(g.target, ast.Tuple) and len(g.target.elts) == 2 and all(isinstance(t, ast.Name) for t in g.target.elts)):
+        return None
+    c_, st_ = g.target.elts[0].id, g.target.elts[1].id
+    it = g.iter
+    if not (isinstance(it, ast.Call) and norm(it.func) == "zip" and len(it.args) == 2 and isinstance(it.args[1], ast.Call)
+            and isinstance(it.args[1].func, ast.Name) and len(it.args[1].args) == 2 and not it.args[1].keywords):
+        return None
+    S, S2, start = it.args[0], it.args[1].args[0], it.args[1].args[1]
+    if norm(_rlz(fi.node, S)) != norm(_rlz(fi.node, S2)) or not prefix_sum_generator(m, it.args[1].func.id):
+        return None
+    e = comp.elt
+    if not (isinstance(e, ast.Call) and norm(e.func) == "%s.unpack" % c_ and [norm(a) for a in e.args] == [bitsp, st_] and not e.keywords):
+        return None
+    return norm(_rlz(fi.node, S)), norm(start)
 
 
 def rule_packers(repo, rule, rule4):
@@ -247,7 +338,7 @@ def rule_packers(repo, rule, rule4):
         adv = [n for n in scope_nodes if isinstance(n, ast.AugAssign) and norm(n.target) == posp_]
         call = [n for n in scope_nodes if isinstance(n, ast.Call) and norm(n.func) == "%s.unpack" % child]
         return bool(adv) and norm(adv[0].value) == "%s.bitlen()" % child and isinstance(adv[0].op, ast.Add) and bool(call) \
-            and [norm(a) for a in call[0].args] == [bitsp_, posp_] and call[0].lineno <= adv[0].lineno
+            and [norm(a) for a in call[0].args] == [bitsp_, posp_] and not _precedes(unf.node, adv[0], call[0])
     if inner:
         f = inner[0]
         child = f.params[0]
@@ -263,6 +354,10 @@ def rule_packers(repo, rule, rule4):
             okk = _step_ok(list(ast.walk(lp)), child) and bool(app)
             r0 = ret_exprs(unf)
             okk = okk and bool(r0) and app and norm(r0[0]) == norm(app[0].func.value)
+    if not okk:
+        r0 = [n.value for n in ast.walk(unf.node) if isinstance(n, ast.Return) and n.value is not None]
+        zl = zipped_layout(m, unf, r0[0], bitsp_) if len(r0) == 1 else None
+        okk = zl == ("self.lst", posp_)
     if okk:
         rule.ok(unf.loc(), unf.fq, "each child unpacks at pos, then pos += child.bitlen(), children in order")
     else:
@@ -302,6 +397,10 @@ def rule_packers(repo, rule, rule4):
             off = poly_of(comp.elt.args[1], le, strict=True)
             cnt = poly_of(g.iter.args[0], le, strict=True) if isinstance(g.iter, ast.Call) and norm(g.iter.func) == "range" and len(g.iter.args) == 1 else None
             okk = off == P.sym("pos") + P.sym("i") * P.sym("c") and cnt == P.sym("n")
+    if not okk:
+        r1_ = [n.value for n in ast.walk(unf.node) if isinstance(n, ast.Return) and n.value is not None]
+        zl = zipped_layout(m, unf, r1_[0], unf.params[1]) if len(r1_) == 1 else None
+        okk = zl is not None and zl[0].replace(" ", "") in ("[self.packer]*self.times", "self.times*[self.packer]") and zl[1] == unf.params[2]
     if okk:
         rule.ok(unf.loc(), unf.fq, "element i unpacked at pos + i*child.bitlen(), i < times")
     else:
